@@ -112,7 +112,8 @@ def run(tier, t0):
     mc = vlib.tlc_must_pass(vlib.run_tlc("Relay", "MCRelay.cfg", workers=8, timeout=1800), "MCRelay")
     # (configured idle, configured udp); None = key absent (default 600)
     # incl. one period disabled (0) next to the other one enabled: the two settings must not leak into each other
-    configs = [(1, 2), (2, 1), (0, 0), (None, None), (2, 0), (0, 1)] if not thorough else [(1, 2), (2, 1), (3, 5), (5, 3), (0, 0), (None, None), (2, 0), (0, 1), (3, 0)]
+    configs = [(1, 2), (2, 1), (0, 0), (None, None), (2, 0), (0, 1), (None, 1), (2, None)] if not thorough else \
+        [(1, 2), (2, 1), (3, 5), (5, 3), (0, 0), (None, None), (2, 0), (0, 1), (3, 0), (None, 1), (2, None), (None, 0)]
     listeners = [("http", "direct"), ("socks5", "direct"), ("socks4", "upsocks5"), ("reverse", "direct"), ("http", "uphttp")]
     ntr = 0
     ntun = 0
@@ -127,9 +128,14 @@ def run(tier, t0):
         uport = bb.free_port(socket.SOCK_DGRAM)
         t = scen.Topology(wd, "c13_" + tag, splice=(idle != 2), idle=600 if idle is None else idle, udp=600 if udp is None else udp,
                           reverse_target="127.0.0.1:%d" % rev_origin.port)
-        if idle is None:
+        if idle is None and udp is None:
             # timeouts section absent altogether
             t.cfg1 = t.cfg1.replace("timeouts:\n  idle: 600\n  udp: 600\n", "")
+        elif idle is None:
+            # the section is there, this key is not: the default (600 s) applies to it
+            t.cfg1 = t.cfg1.replace("timeouts:\n  idle: 600\n", "timeouts:\n")
+        elif udp is None:
+            t.cfg1 = t.cfg1.replace("  udp: 600\n", "")
         t.cfg1 = t.cfg1.replace("listeners:\n", "listeners:\n  - name: udprev_direct\n    type: reverse\n    bind: 127.0.0.1:%d\n    target: 127.0.0.1:%d\n    protocol: udp\n" % (uport, uorg.port), 1)
         t.start()
         eff_idle = 600 if idle is None else idle
